@@ -110,7 +110,7 @@ Analyze(withExp) ==
 Next == \/ Kind # "analyzer" /\ "circuit" \in Feat /\ \E c \in Circs : SetCircuit(c)
         \/ Kind # "analyzer" /\ "edit" \in Feat /\ \E c \in Circs : EditCircuit(c)
         \/ Kind # "analyzer" /\ "param" \in Feat /\ \E v \in 1..3 : SetParam(v)       \* value 3 differs from value 1 by a step of 2e-7
-        \/ Kind # "analyzer" /\ "input" \in Feat /\ \E v \in 1..2 : SetInput(v)
+        \/ Kind # "analyzer" /\ "input" \in Feat /\ \E v \in 1..3 : SetInput(v)       \* input 3 is the vacuum
         \/ "source" \in Feat /\ \E v \in 1..2 : SetSource(v)
         \/ "backend" \in Feat /\ \E v \in 1..2 : SetBackend(v)
         \/ "ps" \in Feat /\ \E p \in 0..3 : SetPostSelect(p)
